@@ -112,7 +112,7 @@ def itemBound (f : AFile) : Nat := (f.chunks.map fun c => c.cm.n + 1).sum + 2
 theorem meas_start : meas f .start = itemBound f := by
   simp [meas, sizeFrom, itemBound]
 
-theorem run_inv (L : Matcher) (hL : LazyOf L) (limit : Nat) (hlim : 1 ≤ limit) (h : f.WF gb d)
+theorem run_inv (L : Matcher) (hL : WeakLazyOf L) (limit : Nat) (hlim : 1 ≤ limit) (h : f.WF gb d)
     (fuel : Nat) (sched : List Step) (hwb : wholeBytes sched) (p : Pos) (σ : St) (acc : List Item)
     (hinv : Inv gb d f p σ (written sched)) (hal : Al σ) (hfuel : meas f p < fuel) :
     ∃ items p' σ', runSched L gb d limit fuel sched σ acc = (acc ++ items, none, σ') ∧
